@@ -206,7 +206,13 @@ func runC10(t testing.TB, c C10Case) (key, what string, sites map[string]int) {
 				// refusal names the ID of the *attached* unidirectional stream
 				if _, ok := s.WaitLine(Wait, from, "connected"); !ok {
 					ic.Close()
-					return "HARNESS", desc + ": input never connected", sites
+					var win []string
+					for _, l := range s.Lines() {
+						if l.Seq > from {
+							win = append(win, clip(l.CL.Line, 120))
+						}
+					}
+					return "HARNESS", fmt.Sprintf("%s: input never connected; notices since the request: %q", desc, win), sites
 				}
 				if ioc, err := s.OpenIO("/io", host); err == nil {
 					ok := s.WaitLines(Wait, func(ls []Line) bool {
